@@ -25,8 +25,8 @@ int main(int argc, char **argv) {
         e.probes = {"probe.multi_frame_packet", "probe.listener_parsed_multi_acf", "fault.drop", "fault.dup", "fault.delay", "fault.stall"};
         e.assumptions = {"simos models Linux socket/CAN/timerfd semantics as described in DESIGN.md section 4",
                          "only well-formed frames a CAN controller can deliver are generated (no error frames, FDF set on FD frames)"};
-        e.quick_runs = 12000;
-        e.thorough_runs = 400000;
+        e.quick_runs = 36000;
+        e.thorough_runs = 1200000;
     } else {
         e.rule = "one run = one (listener, mode) pair (12 pairs, stratified by run index) with its real talker(s) as traffic source, three phases "
                  "(warm-up, fault phase with synthetic/damaged/duplicated/reordered/stale datagrams and stalls, quiet phase with well-formed probes); "
@@ -36,8 +36,8 @@ int main(int argc, char **argv) {
         e.assumptions = {"simos models Linux socket/CAN/timerfd semantics as described in DESIGN.md section 4",
                          "reads beyond the received length but inside the listener's own receive array are not flagged",
                          "socket errors, allocation failures and EINTR are not injected (outside the property)"};
-        e.quick_runs = 14400;
-        e.thorough_runs = 480000;
+        e.quick_runs = 7200;
+        e.thorough_runs = 144000;
     }
     e.quick_wall_cap = 200;
     e.thorough_wall_cap = 1700;
